@@ -280,6 +280,8 @@ class RTok(object):
             self.back()
             self.state = "tag_name"
         elif c == ">":
+            if self.want_pieces and self.text:
+                self.ch_ref("")  # '</>' emits nothing, but html5lib's character token ended at its '<'
             self.state = "data"
         elif c is None:
             self.ch_ref("</")
